@@ -1,6 +1,8 @@
-//! C16 — stub (to be implemented).
-
 fn main() {
-    eprintln!("c16: not implemented");
-    std::process::exit(2);
+    let t = std::time::Instant::now();
+    for scale in [1u8, 2] {
+        let items = corpus::items(1, scale);
+        eprintln!("scale {scale}: {} items in {:?}, total bytes {}", items.len(), t.elapsed(), items.iter().map(|i| i.bytes.len()).sum::<usize>());
+        for i in &items { eprintln!("  {:?} {} {} writable={}", i.kind, i.name, i.bytes.len(), i.side.writable); }
+    }
 }
